@@ -1,6 +1,7 @@
 import CssVerif.Model.StrCodec
 import CssVerif.Model.StrSafe
 import CssVerif.Gen.C03Productions
+import CssVerif.Model.Tok
 open CssVerif CssVerif.Proto CssVerif.StrCodec
 
 def showOpt : Option (List Nat) → String
@@ -18,7 +19,7 @@ def genRe (name : String) : Option Re :=
   | "IDENT" => some Gen.C03.identRe
   | "COMMENT" => some Gen.C03.commentRe
   | "unicodesub" => some Gen.C03.unicodesubRe
-  | "cleanstring" => some Gen.C03.cleanstringRe
+  | "stringsub" => some Gen.C03.stringsubRe
   | "simpleescapes" => some Gen.C03.simpleescapesRe
   | "forbidden_in_uri" => some Gen.C03.forbiddenInUriRe
   | _ => none
@@ -31,7 +32,7 @@ def handLen (name : String) (s : List Nat) : Option (Option Nat) :=
   | "COMMENT" => some (lexComment s)
   | "URI" => some (lexUriPlain s)
   | "unicodesub" => some ((escMatch s).map (·.1))
-  | "cleanstring" => some ((cleanMatch s).map (·.1))
+  | "stringsub" => some ((strMatch s).map (·.1))
   | "simpleescapes" => some ((simpleEscMatch s).map (·.1))
   | _ => none
 
@@ -41,7 +42,6 @@ def showClass : Option Unsafe → String
   | some .bshex => "bshex"
   | some .bsnl => "bsnl"
   | some .trail => "trail"
-  | some .ctrl => "ctrl"
 
 def kindOf (k : String) : Option TokKind :=
   match k with
@@ -58,7 +58,7 @@ def handle (line : String) : String :=
     | some s =>
       match op with
       | "usub" => encCps (usub s)
-      | "clean" => encCps (clean s)
+      | "ssub" => encCps (ssub s)
       | "normalize" => encCps (normalize s)
       | "string" => encCps (helperString s)
       | "stringvalue" => showOpt (stringvalue s)
@@ -92,6 +92,16 @@ def handle (line : String) : String :=
       | "tokval" => (match kindOf n with
           | some k => encCps (tokValue k s)
           | none => "bad-op")
+      -- the same value computed by the C05 tokenizer model (`Model/Tok.lean`, regex-driven `subGo` over the
+      -- generated patterns): `SAME` / `DIFF <value>`; the two hand models must agree
+      | "tokc05" => (match kindOf n with
+          | some .string => (match CssVerif.Tok.subS s with
+              | some v => if v == tokValue .string s then "SAME" else "DIFF " ++ encCps v
+              | none => "DIFF raised")
+          | some .other => (match CssVerif.Tok.subU s with
+              | some v => if v == tokValue .other s then "SAME" else "DIFF " ++ encCps v
+              | none => "DIFF raised")
+          | _ => "bad-op")
       | _ => "bad-op"
   | _ => "bad-op"
 
